@@ -5,7 +5,7 @@
 
 use crate::isolate::{fresh, par_fold, Env};
 use crate::report::{finish, Acc, Ctx, Level};
-use crate::session::{assemble, assemble_here, Asm};
+use crate::session::{assemble_fresh as assemble, assemble_here, Asm};
 use crate::util;
 use serde_json::{json, Value};
 
